@@ -493,8 +493,6 @@ class DAGRunConcurrentManager(DAGRunManagerLike):
         if len(list_node_ids) == 0:
             return None
 
-        local_tasks = []
-
         for node_id in list_node_ids:
 
             await self._lock_manager.wait_for_condition(
@@ -508,7 +506,10 @@ class DAGRunConcurrentManager(DAGRunManagerLike):
 
             if dag.is_oneof and self.__has_subgraph_error(dag):
                 logger.debug('An error has been found in the %s', dag)
-                self._stop_coro_tasks(*local_tasks)
+
+                # The nodes that have already been started are not cancelled: a node can be shared with another
+                # subgraph (e.g. the next OneOf candidate), which would wait forever for a node that is marked
+                # as processed but never gets a result. Whatever is still running at the end is stopped by run().
 
                 # We must unlock descendants because the next OneOf subgraph should start the process.
                 # Otherwise, the entire subgraph will be locked.
@@ -539,7 +540,7 @@ class DAGRunConcurrentManager(DAGRunManagerLike):
                     dag=dag,
                 )
 
-            local_tasks.append(self._create_task(coro_to_run, name=node_id))
+            self._create_task(coro_to_run, name=node_id)
 
         logger.debug('Await for result for %s the dag %s', dag.dest, dag)
 
